@@ -29,6 +29,8 @@ type record struct {
 	Spelling         int    // WKT parameter-name variant
 	UnitFirst        bool   // WKT clause order: UNIT directly behind GEOGCS instead of last
 	P4Reversed       bool   // PROJ.4 parameters written in the opposite order
+	ParamsFirst      bool   // WKT clause order: the PARAMETER clauses before PROJECTION
+	SphName          string // WKT spheroid name ("" = a neutral one); the numbers behind it are the record's own
 }
 
 var unitToMeter = map[string]float64{"metre": 1, "foot": 0.3048, "us-ft": 1200.0 / 3937.0}
@@ -88,7 +90,11 @@ func (r record) geogWKT() string {
 		}
 		tw = ",TOWGS84[" + strings.Join(s, ",") + "]"
 	}
-	return fmt.Sprintf(`GEOGCS["Neutral geographic",DATUM["Neutral_Datum_One",SPHEROID["Neutral spheroid",%s,%s]%s],PRIMEM["Greenwich",0],UNIT["degree",0.0174532925199433]]`, g(r.A), g(r.Rf), tw)
+	sph := r.SphName
+	if sph == "" {
+		sph = "Neutral spheroid"
+	}
+	return fmt.Sprintf(`GEOGCS["Neutral geographic",DATUM["Neutral_Datum_One",SPHEROID["%s",%s,%s]%s],PRIMEM["Greenwich",0],UNIT["degree",0.0174532925199433]]`, sph, g(r.A), g(r.Rf), tw)
 }
 
 func (r record) wkt() string {
@@ -122,6 +128,9 @@ func (r record) wkt() string {
 		ps = append(ps, par("latitude_of_origin", r.Lat0), par("central_meridian", r.Lon0), par("scale_factor", r.K0))
 	}
 	ps = append(ps, par("false_easting", r.X0m/u), par("false_northing", r.Y0m/u))
+	if r.ParamsFirst {
+		return fmt.Sprintf(`PROJCS["Neutral projected",%s,%s,PROJECTION["%s"],UNIT["%s",%s]]`, r.geogWKT(), strings.Join(ps, ","), name, uname, g(u))
+	}
 	if r.UnitFirst {
 		return fmt.Sprintf(`PROJCS["Neutral projected",%s,UNIT["%s",%s],PROJECTION["%s"],%s]`, r.geogWKT(), uname, g(u), name, strings.Join(ps, ","))
 	}
@@ -260,6 +269,29 @@ func main() {
 			}
 		}
 	}
+	// the spheroid under a familiar name (the numbers in the text are the
+	// definition, whatever the name), and the PARAMETER clauses before PROJECTION
+	sphNames := []string{"WGS 84", "WGS84", "GRS 1980", "GRS80", "International_1924", "Clarke_1880", "Clarke_1866", "Bessel_1841", "bessel", "Airy 1830", "airy", "krass", "sphere"}
+	for bi, b := range base {
+		for si, sp := range spheroids {
+			for ti, tw := range towgs[:2] {
+				r := b
+				r.A, r.Rf, r.Towgs, r.Unit = sp[0], sp[1], tw, "metre"
+				for ni, nm := range sphNames {
+					if tier != "thorough" && (bi+si+ti+ni)%3 != 0 {
+						continue
+					}
+					q := r
+					q.SphName = nm
+					recs = append(recs, q)
+				}
+				if b.Proj != "geog" {
+					r.ParamsFirst = true
+					recs = append(recs, r)
+				}
+			}
+		}
+	}
 	rep.Set("records", len(recs))
 	for ri, r := range recs {
 		p4, wk := r.proj4(), r.wkt()
@@ -269,6 +301,12 @@ func main() {
 		class := fmt.Sprintf("%s|unit=%s|towgs84=%d|spelling=%d", r.Proj, r.Unit, len(r.Towgs), r.Spelling)
 		if r.UnitFirst {
 			class += "|unit-clause-first"
+		}
+		if r.ParamsFirst {
+			class += "|parameters-before-projection"
+		}
+		if r.SphName != "" {
+			class += "|spheroid-named-" + strings.ReplaceAll(r.SphName, " ", "_")
 		}
 		det := func(extra string) map[string]interface{} {
 			return map[string]interface{}{"proj4": p4, "wkt": wk, "observed": extra}
